@@ -21,6 +21,7 @@ import (
 	"time"
 
 	"github.com/jech/galene/group"
+	"github.com/jech/galene/rtpconn"
 
 	"verif/core"
 	"verif/seqx"
@@ -56,7 +57,13 @@ type world struct {
 	// membership at the time it is written) is then not exact, and only the
 	// quiescence oracle and the panic oracle are evaluated.
 	lazyUsed bool
+	// a WHIP ingest session (the member type without a websocket): present
+	// in group g between whip-join and whip-close
+	whip   *rtpconn.WhipClient
+	whipIn bool
 }
+
+const whipID = "whip1"
 
 func fresh(kinds []string) func() seqx.World {
 	return func() seqx.World {
@@ -123,6 +130,13 @@ func (w *world) Ops() []seqx.Op {
 					ops = append(ops, op{C: i, Kind: k, Arg: tid, Lazy: true})
 				}
 			}
+		}
+	}
+	if w.has("whip") {
+		if w.whip == nil && !w.whipIn {
+			ops = append(ops, op{C: -1, Kind: "whip-join"})
+		} else if w.whipIn {
+			ops = append(ops, op{C: -1, Kind: "whip-close"})
 		}
 	}
 	for k := range w.w.Tasks() {
@@ -245,6 +259,41 @@ func (w *world) Apply(x seqx.Op) *core.Violation {
 		first = w.w.RunTask(o.N)
 	case "settle":
 		// handled below
+	case "whip-join":
+		// what the WHIP endpoint does for POST /group/g/.whip
+		var fault string
+		first = w.w.Do(func() {
+			g, err := group.Add("g", nil)
+			if err != nil {
+				fault = "group.Add: " + err.Error()
+				return
+			}
+			wc := rtpconn.NewWhipClient(g, whipID, "", nil)
+			u := "bob"
+			if _, err := group.AddClient("g", wc, group.ClientCredentials{Username: &u, Password: pws[u]}); err != nil {
+				fault = "WHIP join refused: " + err.Error()
+				return
+			}
+			w.whip, w.whipIn = wc, true
+		})
+		if fault != "" {
+			return &core.Violation{Signature: "HARNESS-FAULT", What: fault}
+		}
+		for k := range w.w.Clients {
+			if w.in[k] == "g" {
+				w.everIn[k][whipID] = true
+			}
+		}
+	case "whip-close":
+		// DELETE on the WHIP resource, ICE failure, kick: all end in Close
+		for k := range w.w.Clients {
+			if w.in[k] == "g" {
+				w.departs[k][whipID]++
+			}
+		}
+		wc := w.whip
+		w.whipIn = false
+		first = w.w.Do(func() { wc.Close() })
 	case "disconnect":
 		first = w.w.Disconnect(o.C)
 	default:
@@ -312,6 +361,20 @@ func (w *world) settleDrains(f func(sig.Obs)) string {
 }
 
 func (w *world) quiescence() *core.Violation {
+	// reference membership of the WHIP session comes from the history, not
+	// from the group's own table
+	if w.has("whip") {
+		in := false
+		for _, id := range sig.Members("g") {
+			in = in || id == whipID
+		}
+		if in && !w.whipIn {
+			return viol("departed-member-still-listed/whip", "the WHIP session was closed but the group still lists it as a member (later joiners are told about it, nobody is told that it left)")
+		}
+		if !in && w.whipIn {
+			return viol("member-missing/whip", "the WHIP session joined but the group does not list it")
+		}
+	}
 	for k, c := range w.w.Clients {
 		if c.V.Closed || w.in[k] == "" {
 			continue
@@ -359,7 +422,7 @@ func (w *world) Canon() string {
 	for k := range w.w.Clients {
 		fmt.Fprintf(&b, "|%v%v", keys(w.deletes[k]), keys(w.departs[k]))
 	}
-	fmt.Fprintf(&b, "|lazy=%v", w.lazyUsed)
+	fmt.Fprintf(&b, "|lazy=%v|whip=%v", w.lazyUsed, w.whipIn)
 	return b.String()
 }
 
@@ -378,10 +441,11 @@ var alphabets = map[string][]string{
 	"membership": {"kick", "lazy-membership"},
 	"moderation": {"kick", "op", "unop", "present", "unpresent", "lazy"},
 	"data":       {"setdata", "unpresent", "lazy"},
+	"whip":       {"kick", "whip"},
 }
 
 func cfg(a string) seqx.Config {
-	d := map[string]int{"membership": core.Pick(6, 8), "moderation": core.Pick(5, 6), "data": core.Pick(5, 7)}[a]
+	d := map[string]int{"membership": core.Pick(6, 8), "moderation": core.Pick(5, 6), "data": core.Pick(5, 7), "whip": core.Pick(5, 7)}[a]
 	return seqx.Config{Name: "views/" + a, Fresh: fresh(alphabets[a]), MaxDepth: d, Parallel: 1}
 }
 
@@ -509,7 +573,7 @@ func main() {
 	}
 	job := 0
 	agg := map[string]*core.Sub{}
-	names := []string{"membership", "moderation", "data"}
+	names := []string{"membership", "moderation", "data", "whip"}
 	for _, a := range names {
 		w0 := fresh(alphabets[a])()
 		first := w0.Ops()
